@@ -112,6 +112,21 @@ needs.update({
  "C07-p2": ("'nextpow2' derived from the wrong private copy (same as C07-o3, other author)", "NFFT='nextpow2' assigned later; only the comparison with a fresh object built with NFFT='nextpow2' differs"),
  "C07-p3": ("a 'scale only once' flag re-armed in the psd getter only, not on explicit p() / p.run()", "scale_by_freq=True and a second explicit computation on the same object, then a read"),
 })
+
+needs.update({
+ "C06-q1": ("sides setter 'undo' shortcut remembers the representation it is leaving, captured before the obsolete-PSD refresh", "computed PSD, a parameter change, sides = X, sides = the original value"),
+ "C06-q2": ("psd setter re-applies the sides in use; scale() round-trips through it and converts twice", "an estimator whose __call__ scales, scale_by_freq=True, non-default sides in use, a recomputation"),
+ "C06-q3": ("arma2psd centres its output by multiplying the coefficients by (-1)**k before the FFT", "arma2psd(..., sides='centerdc') with odd NFFT"),
+ "C06-r1": ("cshift via numpy slicing: negative offsets are used as they are and return the input unchanged", "a negative offset passed to cshift"),
+ "C06-r2": ("twosided_2_centerdc split point int(round(N/2.)) (banker's rounding)", "odd NFFT with N % 4 == 1 and a conversion to centerdc"),
+ "C06-r3": ("Range.onesided_gen yields n*sampling/N while the other axes keep n*df: one-ulp differences between axes for some (NFFT, k)", "non-dyadic frequency step and an EXACT comparison of frequencies across sides. NOT CLAIMED: the check compares frequencies with a relative tolerance of 1e-9 on purpose (n*sampling/N is as legitimate as n*df), so a one-ulp difference between two axes is not a violation for it"),
+ "C07-q1": ("psd setter keeps the sides label when the length is unchanged (complex branch)", "complex data, sides='centerdc' after a first computation, then any recomputation"),
+ "C07-q2": ("data setter aliases the caller's ndarray (no copy)", "ndarray input that the caller later overwrites in place without re-assigning it"),
+ "C07-q3": ("datatype latches to 'complex' (if/elif slip in the data setter)", "one object going from complex to real data"),
+ "C07-r1": ("scale() takes its frequency step from the private Spectrum.__df (sampling/N) rescaled by N/NFFT", "scale_by_freq=True and a data-length change with no later sampling change"),
+ "C07-r2": ("MultiTapering's adaptive iteration starts from the previous weights", "MultiTapering(method='adapt'), at least two computations with unchanged NFFT and taper count (deviation 7e-4 .. 29 %)"),
+ "C07-r3": ("parma lag setter drops the cache with self.__psd = None, which mangles to another name: a no-op", "parma, computed PSD, a different lag, no other invalidating setter before the read"),
+})
 res = json.load(open('/verif/seeded/RESULTS.json'))
 for sid, (mech, need) in needs.items():
     d = '/verif/seeded/' + sid
